@@ -3,21 +3,21 @@
 import json, os, re
 rows = [r for r in json.load(open('/verif/seeded/MATRIX.json')) if r.get('status') != 'superseded']
 MISSED = ['C09-m1', 'C17-m3', 'C10-m3', 'C14-m3', 'C16-m3', 'C06-m4', 'C17-m4', 'C13-m3', 'C11-m4', 'C18-m5', 'C20-m4', 'C16-m4', 'C12-m5',
-          'C14-m4', 'C13-m4', 'C16-m5', 'C01-m5', 'C12-m6', 'C17-m5', 'C18-m6']
+          'C14-m4', 'C13-m4', 'C16-m5', 'C01-m5', 'C12-m6', 'C17-m5', 'C18-m6', 'C14-m5']
 n = len(rows)
 ex1 = [r for r in rows if r.get('exit') == 1]
 byc = [r for r in rows if r.get('n_contract_refutations', 0) > 0]
 so = [r['seed'] for r in rows if r.get('n_contract_refutations', 0) == 0]
 co = [r['seed'] for r in rows if r.get('n_contract_refutations', 0) > 0 and r.get('standin_failures', 0) == 0]
-words = {16: 'Sixteen', 20: 'Twenty'}
-head = """### 12.8 Seed matrix (from `seeded/MATRIX.json`; quick tier, VERIF_SEED=0; refreshed after 12.23)
+words = {16: 'Sixteen', 20: 'Twenty', 21: 'Twenty-one'}
+head = """### 12.8 Seed matrix (from `seeded/MATRIX.json`; quick tier, VERIF_SEED=0; refreshed after 12.24)
 
 "contracts" = number of refuted contract obligations that are not recorded findings; "stand-in" = failures of the
 bounded stand-in (recorded findings included). Every live seed makes its property's check exit 1 (%d of %d); %d are refuted by a contract obligation
 (25 of 38 when this table was first written), the other %d only by the bounded stand-in (%s): their changed code leaves the
-accepted subset, is text processing on characters (strings are opaque to PyVC), or sits in code without a contract (12.12–12.23).
+accepted subset, is text processing on characters (strings are opaque to PyVC), or sits in code without a contract (12.12–12.24).
 %d seeds are caught by a contract obligation and by *no* stand-in case (%s). %s seeds were *missed* by the first run
-against them (%s); each led to a new or wider contract and / or new stand-in inputs (12.10, 12.14–12.23).
+against them (%s); each led to a new or wider contract and / or new stand-in inputs (12.10, 12.14–12.24).
 
 | seed | property | files changed | exit | contracts | stand-in |
 |---|---|---|---|---|---|
